@@ -438,7 +438,7 @@ const elem = `\[\(phi\(\(φ \+ 1\)\|-1\) \+ 1\)\]` // range element index
 // ---------------------------------------------------------------- C11
 
 func checkC11(w *World, r *Report) {
-	r.Explanation = "Structural clause of C11: (B-1) every Delegatee method that changes the stake list adjusts TotalPower by the same stake's Power and SelfPower when the stake is a self stake (addStake, DelStake, DelStakeByIdx), or recomputes both from the list (doSlashAll); DelAllStakes subtracts every removed power from TotalPower and each of its call sites either runs where SelfPower == 0 or deletes the delegatee; the stake list has a closed set of writers; (B-2) every stake removed by DelStake / DelAllStakes in controller code is handed to the frozen ledger on the same success path, after its refund height was set; slashing is the only removal without destination; (B-3) a stake's owner, target and key are never written after construction; (B-4) the total-power query sums TotalPower over the immutable ledger; (B-5) several operations on one delegatee inside one block see each other through the overlay, including deletion and re-creation (C18 L-1)."
+	r.Explanation = "Structural clause of C11: (B-1) every Delegatee method that changes the stake list adjusts TotalPower by the same stake's Power and SelfPower when the stake is a self stake (addStake, DelStake, DelStakeByIdx), or recomputes both from the list (doSlashAll); DelAllStakes subtracts every removed power from TotalPower and each of its call sites either runs where SelfPower == 0 or deletes the delegatee; the stake list has a closed set of writers; (B-2) every stake removed by DelStake / DelAllStakes in controller code is handed to the frozen ledger on the same success path, after its refund height was set; slashing is the only removal without destination; (B-3) a stake's owner, target and key are never written after construction; (B-4) the total-power query sums TotalPower over the immutable ledger; (B-5) several operations on one delegatee inside one block see each other through the overlay, including deletion and re-creation (C18 L-1). B-4 is evaluated per request path: every successful answer to stakes/total_power comes from one unfiltered scan of the immutable delegatee ledger (sum in the callback, or every delegatee collected and the whole list summed)."
 	r.NotCovered = "the sums as numbers over a history; the ledger's overlay semantics (C18); JSON round-trip of delegatees."
 	b1(w, r)
 	b2(w, r)
@@ -1656,7 +1656,7 @@ func checkC13(w *World, r *Report) {
 // ---------------------------------------------------------------- C14
 
 func checkC14(w *World, r *Report) {
-	r.Explanation = "Structural clause of C14: (J-1) RigoApp.BeginBlock runs the governance and the stake BeginBlock on the block's context; each ranges over all ByzantineValidators and punishes once per entry; the object slashed and recorded is the one looked up by the evidence's validator address, with the governance slash ratio; governance punishes exactly the proposals whose voters contain that address; (J-2) doSlashAll reduces each stake by power x ratio / 100, forfeits a stake whose reduction would be below 1 and recomputes the totals; GovProposal.DoPunish applies the same ratio expression to the voter's power, cancels the vote before and re-casts it after, and updates TotalVotingPower and MajorityPower = total x 2 / 3; (J-3) a non-signer is marked at height-1, its misses counted in [max(0, h-1-window), h-1], and only when window - missed < MinSignedBlocks all its stakes are moved to the frozen ledger (with refund height) and the delegatee is deleted; (J-4) the candidate list of a block is rebuilt into storage of its own, so the update that follows a jailing names the jailed validator (C10 U-1)."
+	r.Explanation = "Structural clause of C14: (J-1) RigoApp.BeginBlock runs the governance and the stake BeginBlock on the block's context; each ranges over all ByzantineValidators and punishes once per entry; the object slashed and recorded is the one looked up by the evidence's validator address, with the governance slash ratio; governance punishes exactly the proposals whose voters contain that address; (J-2) doSlashAll reduces each stake by power x ratio / 100, forfeits a stake whose reduction would be below 1 and recomputes the totals; GovProposal.DoPunish applies the same ratio expression to the voter's power, cancels the vote before and re-casts it after, and updates TotalVotingPower and MajorityPower = total x 2 / 3; (J-3) a non-signer is marked at height-1, its misses counted in [max(0, h-1-window), h-1], and only when window - missed < MinSignedBlocks all its stakes are moved to the frozen ledger (with refund height) and the delegatee is deleted; (J-4) the candidate list of a block is rebuilt into storage of its own, so the update that follows a jailing names the jailed validator (C10 U-1). J-2 recast-choice: no read of the voter's choice lies between cancelVote (which resets it) and the re-cast."
 	r.NotCovered = "rounding effects summed over many stakes; the window behaviour over long histories (BlockMarker pruning); that no other validator changes is argued by the key used, not by an alias analysis."
 	j1(w, r)
 	j2(w, r)
